@@ -30,7 +30,7 @@ func runC06(w *World, r *Report) {
 	r.Rule("embed", "child encodings are copied whole", 60)
 	r.Rule("nooverlap", "no two write records provably overlap", 100)
 	sizeRules(w, r, func(k *Kind) bool { return true })
-	r.Rule("order", "builders only extend the lists the encoder walks; they never reassign elements in place", 7)
+	r.Rule("order", "builders only extend the lists the encoder walks; they never reassign elements in place", 5)
 	orderRule(w, r)
 	r.Rule("childerr", "the error of every encode call that can fail is read before the child's bytes are used (a child that produced nothing makes the parent fail instead of being left out silently)", 60)
 	childErrRule(w, r, "childerr")
